@@ -562,6 +562,142 @@ func c01OtherSlash(q *c01Qual, width int) bool {
 	return false
 }
 
+// The top-level keywords of the flat-file format. A keyword is a keyword only
+// in the keyword field (columns 1-12, starting in column 1); as the first word
+// of an indented continuation line (a wrapped qualifier value, a wrapped
+// DEFINITION, COMMENT, TITLE ... text) the same letters are text.
+var c01TopKeywords = []string{"LOCUS", "DEFINITION", "ACCESSION", "VERSION", "KEYWORDS", "SOURCE", "REFERENCE", "FEATURES", "ORIGIN", "COMMENT"}
+
+// The sub-keywords of a reference, and ORGANISM; the same holds for them (their
+// field is columns 3-12 or 4-12 of a line that is not blank in columns 1-6).
+var c01RefSubKeywords = []string{"AUTHORS", "CONSRTM", "TITLE", "JOURNAL", "PUBMED", "REMARK"}
+
+var c01AllKeywordWords = append(append(append([]string{}, c01TopKeywords...), c01RefSubKeywords...), "ORGANISM")
+
+func c01WordSet(words ...string) map[string]bool {
+	m := map[string]bool{}
+	for _, k := range words {
+		m[k] = true
+	}
+	return m
+}
+
+var c01IsTopKeyword = c01WordSet(c01TopKeywords...)
+var c01IsRefSubKeyword = c01WordSet(c01RefSubKeywords...)
+var c01IsOrganismWord = c01WordSet("ORGANISM")
+var c01IsKeywordWord = c01WordSet(c01AllKeywordWords...)
+
+// c01ContKeywordWords: for a quoted qualifier, the indexes of the value words
+// that start a continuation line and spell a word of the set (the last word is
+// left out: the closing quote is glued to it).
+func c01ContKeywordWords(q *c01Qual, width int, set map[string]bool) map[int]bool {
+	if q.Bare {
+		return nil
+	}
+	_, first := c01WrapQual(c01QualText(q), width-21)
+	if len(first) < 2 {
+		return nil
+	}
+	words := strings.Split(q.Value, " ")
+	var m map[int]bool
+	for li, ti := range first {
+		if li > 0 && ti > 0 && ti < len(words)-1 && set[words[ti]] {
+			if m == nil {
+				m = map[int]bool{}
+			}
+			m[ti] = true
+		}
+	}
+	return m
+}
+
+// c01ContStarts: {paragraph, word} of every word that starts a continuation
+// line of a keyword block as c01Block lays it out (all lines but the first).
+func c01ContStarts(paras []string, w int) [][2]int {
+	var out [][2]int
+	firstLine := true
+	for pi, p := range paras {
+		cur := 0
+		for wi, wd := range strings.Split(p, " ") {
+			if wi > 0 && cur+1+len(wd) <= w {
+				cur += 1 + len(wd)
+				continue
+			}
+			cur = len(wd)
+			if !firstLine {
+				out = append(out, [2]int{pi, wi})
+			}
+			firstLine = false
+		}
+	}
+	return out
+}
+
+// c01KeywordConts: the continuation lines of the block whose first word spells
+// a word of the set.
+func c01KeywordConts(paras []string, w int, set map[string]bool) [][2]int {
+	var out [][2]int
+	for _, pw := range c01ContStarts(paras, w) {
+		if set[strings.Split(paras[pw[0]], " ")[pw[1]]] {
+			out = append(out, pw)
+		}
+	}
+	return out
+}
+
+// c01LowerKeywordConts spells those words in lower case (same length, so the
+// wrapping stays as it is).
+func c01LowerKeywordConts(t *[]string, w int, set map[string]bool) {
+	for _, pw := range c01KeywordConts(*t, w, set) {
+		words := strings.Split((*t)[pw[0]], " ")
+		words[pw[1]] = strings.ToLower(words[pw[1]])
+		(*t)[pw[0]] = strings.Join(words, " ")
+	}
+}
+
+// the keyword blocks outside the references, and the reference fields
+func c01BlockTexts(r *c01Rec) []*[]string {
+	ts := []*[]string{&r.Def, &r.Acc, &r.Ver, &r.Kw, &r.Src, &r.Org}
+	for i := range r.Others {
+		ts = append(ts, &r.Others[i].Text)
+	}
+	return ts
+}
+
+func c01RefTexts(r *c01Rec) []*[]string {
+	var ts []*[]string
+	for i := range r.Refs {
+		ts = append(ts, &r.Refs[i].Authors, &r.Refs[i].Title, &r.Refs[i].Journal, &r.Refs[i].Remark)
+	}
+	return ts
+}
+
+// c01LowerKeywordQuals: the same for the qualifier values of the record.
+func c01LowerKeywordQuals(r *c01Rec, set map[string]bool) {
+	c01EachQual(r, func(_ *c01Feat, q *c01Qual) {
+		ck := c01ContKeywordWords(q, r.Width, set)
+		if len(ck) == 0 {
+			return
+		}
+		words := strings.Split(q.Value, " ")
+		for wi := range words {
+			if ck[wi] {
+				words[wi] = strings.ToLower(words[wi])
+			}
+		}
+		q.Value = strings.Join(words, " ")
+	})
+}
+
+func c01AnyKeywordCont(ts []*[]string, w int, set map[string]bool) bool {
+	for _, t := range ts {
+		if len(c01KeywordConts(*t, w, set)) > 0 {
+			return true
+		}
+	}
+	return false
+}
+
 // Lower-case locus names that contain a word which, in another column of the
 // LOCUS line, would be a molecule type, a topology or a division. The name
 // column is columns 13-28; whatever it spells, the molecule type, topology and
@@ -590,6 +726,22 @@ func c01NameHasKeyword(name string) bool {
 		}
 	}
 	return false
+}
+
+// c01WordAxis: a word of the set starts a continuation line anywhere in the
+// record (qualifier value, keyword block, reference field).
+func c01WordAxis(name string, set map[string]bool) c01Axis {
+	return c01RecAxis(name,
+		func(r *c01Rec) bool {
+			return c01AnyQual(r, func(q *c01Qual) bool { return len(c01ContKeywordWords(q, r.Width, set)) > 0 }) ||
+				c01AnyKeywordCont(c01AllTexts(r), r.Width-12, set)
+		},
+		func(r *c01Rec) {
+			c01LowerKeywordQuals(r, set)
+			for _, t := range c01AllTexts(r) {
+				c01LowerKeywordConts(t, r.Width-12, set)
+			}
+		})
 }
 
 var c01DigitWord = map[int]string{1: "one", 2: "two", 3: "three", 4: "four", 5: "five", 6: "six"}
@@ -658,6 +810,27 @@ func c01Axes() []c01Axis {
 					q.Value = strings.Join(words, " ")
 				})
 			}),
+		c01RecAxis("keyword-like-continuation",
+			func(r *c01Rec) bool {
+				return c01AnyQual(r, func(q *c01Qual) bool { return len(c01ContKeywordWords(q, r.Width, c01IsTopKeyword)) > 0 })
+			},
+			func(r *c01Rec) { c01LowerKeywordQuals(r, c01IsTopKeyword) }),
+		c01RecAxis("keyword-like-continuation-in-keyword-block",
+			func(r *c01Rec) bool { return c01AnyKeywordCont(c01BlockTexts(r), r.Width-12, c01IsTopKeyword) },
+			func(r *c01Rec) {
+				for _, t := range c01BlockTexts(r) {
+					c01LowerKeywordConts(t, r.Width-12, c01IsTopKeyword)
+				}
+			}),
+		c01RecAxis("keyword-like-continuation-in-reference",
+			func(r *c01Rec) bool { return c01AnyKeywordCont(c01RefTexts(r), r.Width-12, c01IsTopKeyword) },
+			func(r *c01Rec) {
+				for _, t := range c01RefTexts(r) {
+					c01LowerKeywordConts(t, r.Width-12, c01IsTopKeyword)
+				}
+			}),
+		c01WordAxis("reference-subkeyword-like-continuation", c01IsRefSubKeyword),
+		c01WordAxis("organism-word-continuation", c01IsOrganismWord),
 		c01RecAxis("slash-in-value",
 			func(r *c01Rec) bool {
 				return c01AnyQual(r, func(q *c01Qual) bool { return c01OtherSlash(q, r.Width) })
@@ -919,6 +1092,21 @@ func c01Blame(f *c01File, fails func(g *c01File) bool) (string, c01File) {
 			break
 		}
 	}
+	// A keyword-like word at the start of a continuation line of a reference
+	// field is one shape whichever later field of the reference the record
+	// happens to state (the REMARK is merely what there is to lose).
+	for _, n := range names {
+		if n == "keyword-like-continuation-in-reference" {
+			var rest []string
+			for _, m := range names {
+				if m != "reference-remark" {
+					rest = append(rest, m)
+				}
+			}
+			names = rest
+			break
+		}
+	}
 	if len(names) == 0 {
 		names = quantities
 	}
@@ -1123,6 +1311,10 @@ const (
 	c01VShapes
 )
 
+// c01VContKeyword is not part of the enumerated shapes (it has its own
+// enumeration over the keywords and the places); the random records use it.
+const c01VContKeyword = 100
+
 var c01VNames = []string{"plain", "slash", "equals", "slash+equals", "wrap", "wrap+slash+equals", "continuation-slash", "empty", "bare", "translation"}
 
 func c01Inject(rng *rand.Rand, text string, ch byte) string {
@@ -1156,6 +1348,8 @@ func c01MakeQual(rng *rand.Rand, key string, shape, width int) c01Qual {
 	case c01VTranslation:
 		q.Key, q.Value = "translation", "M"+c01Word(rng, "ACDEFGHIKLMNPQRSTVWY", 70, 260)
 		return q
+	case c01VContKeyword:
+		return c01KeywordQual(rng, key, width, c01Pick(rng, c01AllKeywordWords))
 	}
 	chars := 3 + rng.Intn(25)
 	if shape == c01VWrap || shape == c01VWrapSlashEquals || shape == c01VContSlash {
@@ -1178,6 +1372,113 @@ func c01MakeQual(rng *rand.Rand, key string, shape, width int) c01Qual {
 		}
 	}
 	return q
+}
+
+// c01PutAtLineStart inserts kw into the single-spaced words so that it starts a
+// continuation line when lead+words+tail is wrapped greedily at w columns: it
+// goes in front of a word that starts such a line, preceded, where it would
+// still fit on the line above, by one filler word that fills that line.
+func c01PutAtLineStart(rng *rand.Rand, words []string, lead, tail string, w int, kw, alpha string) ([]string, bool) {
+	if len(words) < 3 {
+		return words, false
+	}
+	lines, first := c01WrapQual(lead+strings.Join(words, " ")+tail, w)
+	var cand []int
+	for li, ti := range first {
+		if li > 0 && ti > 0 {
+			cand = append(cand, li)
+		}
+	}
+	if len(cand) == 0 {
+		return words, false
+	}
+	li := cand[rng.Intn(len(cand))]
+	ti := first[li]
+	ins := []string{kw}
+	if room := w - len(lines[li-1]) - 1; room >= len(kw) {
+		ins = []string{c01Word(rng, alpha, room, room), kw}
+	}
+	out := append([]string{}, words[:ti]...)
+	out = append(out, ins...)
+	return append(out, words[ti:]...), true
+}
+
+// c01KeywordPara: a paragraph of about chars characters (at least two lines of
+// w columns) with kw as the first word of one of its continuation lines.
+func c01KeywordPara(rng *rand.Rand, alpha string, w, chars int, kw string) string {
+	if chars < w+30 {
+		chars = w + 30
+	}
+	for try := 0; ; try++ {
+		words, ok := c01PutAtLineStart(rng, strings.Split(c01Text(rng, alpha, chars), " "), "", "", w, kw, alpha)
+		p := strings.Join(words, " ")
+		if ok && len(c01KeywordConts([]string{p}, w, c01IsKeywordWord)) > 0 {
+			return p
+		}
+		if try > 50 {
+			panic("c01KeywordPara: cannot place " + kw)
+		}
+	}
+}
+
+// c01KeywordQual: a quoted qualifier whose wrapped value has kw as the first
+// word of a continuation line.
+func c01KeywordQual(rng *rand.Rand, key string, width int, kw string) c01Qual {
+	for try := 0; ; try++ {
+		q := c01Qual{Key: key}
+		words, ok := c01PutAtLineStart(rng, strings.Split(c01Text(rng, c01ValueAlpha, 70+rng.Intn(160)), " "), "/"+key+"=\"", "\"", width-21, kw, c01ValueAlpha)
+		q.Value = strings.Join(words, " ")
+		if ok && len(c01ContKeywordWords(&q, width, c01IsKeywordWord)) > 0 {
+			return q
+		}
+		if try > 50 {
+			panic("c01KeywordQual: cannot place " + kw)
+		}
+	}
+}
+
+// where the dedicated enumeration puts the keyword-like word
+var c01KeywordPlaces = []string{"qualifier", "DEFINITION", "KEYWORDS", "SOURCE", "ORGANISM", "COMMENT", "DBLINK", "AUTHORS", "TITLE", "JOURNAL", "REMARK"}
+
+// c01KeywordContRec: a record with two features, two complete references, a
+// DBLINK and a COMMENT block, and kw at the start of a continuation line of
+// the named place (reference fields: those of the first reference).
+func c01KeywordContRec(rng *rand.Rand, n, width int, place, kw string) c01Rec {
+	r := c01ShapeRec(rng, n, 2, 1, c01VPlain, 1)
+	r.Width = width
+	short := func(k int) []string { return []string{c01Text(rng, c01MetaAlpha, k)} }
+	for i := 0; i < 2; i++ {
+		r.Refs = append(r.Refs, c01Ref{Authors: short(30), Title: short(40), Journal: short(30), PubMed: c01Word(rng, c01Digits, 6, 8), Remark: short(30)})
+	}
+	r.Others = []c01KV{{"DBLINK", []string{"BioProject: PRJNA" + c01Word(rng, c01Digits, 4, 6)}, true}, {"COMMENT", short(40), false}}
+	para := func() []string { return []string{c01KeywordPara(rng, c01MetaAlpha, width-12, 90+rng.Intn(60), kw)} }
+	switch place {
+	case "qualifier":
+		r.Feats[0].Quals[0] = c01KeywordQual(rng, r.Feats[0].Quals[0].Key, width, kw)
+	case "DEFINITION":
+		r.Def = para()
+	case "KEYWORDS":
+		r.Kw = para()
+	case "SOURCE":
+		r.Src = para()
+	case "ORGANISM":
+		r.Org = append(r.Org[:1], para()...) // name line, then the lineage
+	case "DBLINK":
+		r.Others[0].Text = append(r.Others[0].Text, para()...)
+	case "COMMENT":
+		r.Others[1].Text = para()
+	case "AUTHORS":
+		r.Refs[0].Authors = para()
+	case "TITLE":
+		r.Refs[0].Title = para()
+	case "JOURNAL":
+		r.Refs[0].Journal = para()
+	case "REMARK":
+		r.Refs[0].Remark = para()
+	default:
+		panic("c01KeywordContRec: " + place)
+	}
+	return r
 }
 
 // c01ShapeRec: the record of the exhaustive part. Every feature has the same
@@ -1334,6 +1635,25 @@ func c01RandRec(rng *rand.Rand, p c01Profile) c01Rec {
 		}
 		if rng.Intn(3) == 0 {
 			allowed = append(allowed, c01VContSlash)
+		}
+		if rng.Intn(3) == 0 {
+			allowed = append(allowed, c01VContKeyword)
+		}
+	}
+	// one record in five: a keyword block or a reference field gets a last
+	// paragraph in which a keyword word starts a continuation line
+	if rng.Intn(5) == 0 {
+		ts := []*[]string{&r.Def, &r.Kw, &r.Src, &r.Org}
+		for i := range r.Others {
+			ts = append(ts, &r.Others[i].Text)
+		}
+		ts = append(ts, c01RefTexts(&r)...)
+		t := ts[rng.Intn(len(ts))]
+		para := c01KeywordPara(rng, c01MetaAlpha, r.Width-12, 70+rng.Intn(p.MaxMeta-69), c01Pick(rng, c01AllKeywordWords))
+		if t == &r.Org || len(*t) == 0 {
+			*t = append(*t, para)
+		} else {
+			(*t)[len(*t)-1] = para
 		}
 	}
 	for i := 0; i < nfeat; i++ {
@@ -1808,8 +2128,9 @@ func TestVerifC01(t *testing.T) {
 	dom := "independent NCBI-layout writer (LOCUS columns 13-28/30-40/48-53/56-63/65-67/69-79, 12-column keyword field, feature key column 6, location/qualifier column 22, wrapping at 79 or 80 columns, ORIGIN 60/10); "
 	shapeDom := "exhaustive over shape: sequence length {7,12,345,1234,12345,100000} (1 to 6 digits) x 1 or 2 features x qualifiers per feature {0,1,2} x value shape {" + strings.Join(c01VNames, ",") +
 		"} x location on {1,2,3} lines x final newline {yes,no}, plus lengths {1,9,10,60,61,99,100,120,999,1000,9999,10000,99999} and locus names of 1..16 characters and the 4 molecule types x 2 topologies on a plain record, plus " + strconv.Itoa(len(c01KeywordNames)) +
-		" lower-case locus names that contain a molecule-type, topology or division word (dnak_transcript, ssu_rdna_tx, mrna_7, trna_leu, rrna16s, linearized_x, circular9, genomic_dna_1, bct_syn, linear, circular, dna, mrna, est_linear_rrna, ...) x 4 molecule types x 2 topologies x all 18 divisions on a plain 345-letter record; "
-	randDom := fmt.Sprintf("plus %d seeded-random records: length 1..100000 (digit count uniform), locus name 1..16 lower-case characters, DNA/mRNA/tRNA/rRNA, linear/circular, 0..40 features with 0..5 qualifiers (values over printable ASCII without the double quote, single-spaced words, up to 230 characters, translations up to 260), locations a..b, complement, join, complement(join), partial, single base, join of up to 40 ranges on several lines, 0..5 references with optional TITLE/PUBMED/REMARK, COMMENT/DBLINK/PROJECT blocks, metadata texts to 400 characters; every 25th random record is read through Read from a temporary file; ", nRandRec)
+		" lower-case locus names that contain a molecule-type, topology or division word (dnak_transcript, ssu_rdna_tx, mrna_7, trna_leu, rrna16s, linearized_x, circular9, genomic_dna_1, bct_syn, linear, circular, dna, mrna, est_linear_rrna, ...) x 4 molecule types x 2 topologies x all 18 divisions on a plain 345-letter record, plus keyword-like continuation lines: each of the words {" + strings.Join(c01AllKeywordWords, ",") +
+		"} as the first word of an indented continuation line (every word in every place, so each word occurs above as well as below the real line of that keyword) of {a wrapped qualifier value, DEFINITION, KEYWORDS, SOURCE, the ORGANISM lineage, COMMENT, DBLINK, and AUTHORS, TITLE, JOURNAL, REMARK of the first of two references} x wrapping at {79,80} columns on a 345-letter record with two features, two complete references, DBLINK and COMMENT; "
+	randDom := fmt.Sprintf("plus %d seeded-random records: length 1..100000 (digit count uniform), locus name 1..16 lower-case characters, DNA/mRNA/tRNA/rRNA, linear/circular, 0..40 features with 0..5 qualifiers (values over printable ASCII without the double quote, single-spaced words, up to 230 characters, translations up to 260), locations a..b, complement, join, complement(join), partial, single base, join of up to 40 ranges on several lines, 0..5 references with optional TITLE/PUBMED/REMARK, COMMENT/DBLINK/PROJECT blocks, metadata texts to 400 characters, in about one record in six wrapped qualifier values and in one record in five a keyword block or reference field with a continuation line whose first word is one of the keyword words above; every 25th random record is read through Read from a temporary file; ", nRandRec)
 	runs := []*verifRun{
 		newVerifRun("C01", "io/genbank.Parse/panic-free", dom+shapeDom+randDom+"every case counts"),
 		newVerifRun("C01", "io/genbank.Parse/post/origin", dom+shapeDom+randDom+"every case counts (length >= 1)"),
@@ -1900,6 +2221,25 @@ func TestVerifC01(t *testing.T) {
 		}
 		f := c01File{Recs: []c01Rec{r}, FinalNL: true}
 		return c01EvalRecord(fmt.Sprintf("plain len=%d name-length=%d %s %s features=%d", p.n, p.nameLen, p.mol, p.topo, p.feats), &f, "")
+	})
+	// keyword-like words at the start of continuation lines
+	type kwcase struct {
+		place, kw string
+		width     int
+	}
+	var kwcases []kwcase
+	for _, place := range c01KeywordPlaces {
+		for _, kw := range c01AllKeywordWords {
+			for _, width := range []int{79, 80} {
+				kwcases = append(kwcases, kwcase{place, kw, width})
+			}
+		}
+	}
+	c01Parallel(len(kwcases), runs, func(i int) []c01Out {
+		k := kwcases[i]
+		rng := c01Rng(6, i)
+		f := c01File{Recs: []c01Rec{c01KeywordContRec(rng, 345, k.width, k.place, k.kw)}, FinalNL: true}
+		return c01EvalRecord(fmt.Sprintf("keyword-like-continuation place=%s word=%s width=%d", k.place, k.kw, k.width), &f, "")
 	})
 	// ---- single records, random content ----------------------------------
 	rtmp := t.TempDir()
